@@ -29,7 +29,7 @@ RULE = (
 ASSUMPTIONS = ["whole days elapsed are computed on instants (UTC), whatever the written time zones", "income fractions are always short-term"]
 SETTINGS: Dict[str, Dict[str, Any]] = {
     "quick": {"cases": 5000, "cli_cases": 40, "budget_s": 45, "minimums": {"corpus_runs": 100, "fractions": 7000, "nontrivial": 2000, "near_threshold_both_sides": 1500, "cli_runs": 5, "runs_with_the_to_date_on_the_disposal_day": 400}},
-    "thorough": {"cases": 200000, "cli_cases": 150, "budget_s": 300, "minimums": {"corpus_runs": 100, "fractions": 400000, "nontrivial": 80000, "near_threshold_both_sides": 50000, "cli_runs": 100, "runs_with_the_to_date_on_the_disposal_day": 15000}},
+    "thorough": {"cases": 200000, "cli_cases": 150, "budget_s": 300, "minimums": {"corpus_runs": 100, "fractions": 240000, "nontrivial": 48000, "near_threshold_both_sides": 30000, "cli_runs": 60, "runs_with_the_to_date_on_the_disposal_day": 9000}},
 }
 
 COUNTRIES: List[Tuple[str, Optional[int], Optional[int]]] = [
